@@ -579,7 +579,9 @@ func runC04(c *ev.Ctx) {
 			big = append(big, gen.Seq{Fam: "maurergap", N: 7 * (1300 + g + 3000), A: g, Seed: gen.Mix(seed, 67, uint64(g))})
 		}
 		big = append(big, gen.Seq{Fam: "maurergap", N: 7 * (1<<23 + 3000), A: 1 << 23, B: 1, Seed: gen.Mix(seed, 68)},
-			gen.Seq{Fam: "maurersparse", N: 7 * 8701000, A: 500000, B: 8700000})
+			gen.Seq{Fam: "maurersparse", N: 7 * 8700000, A: 500000, B: 8700000},
+			gen.Seq{Fam: "maurersparse", N: 7 * 14000000, A: 700001, B: 13999999},
+			gen.Seq{Fam: "maurersparse", N: 7 * 12000000, A: 1 << 19, B: 1<<23 + 1<<21})
 		for _, sq := range big {
 			runSeqWorks(c, []seqWork{{Seq: sq, Specs: []Spec{{T: "maurer"}}, Degenerate: true}})
 			c.Count("maurer_sequences_beyond_58_Mbit", 1)
